@@ -562,6 +562,14 @@ def unresolvable_case(rng: random.Random):
 #                                                          k.__annotations__[f] = <annotation> (a new member, or
 #                                                          another type for a member k already has)
 #   {'op': 'call',     'fn': 'static_order' | 'itertypes', 'root': desc}
+#   {'op': 'resolve',  'how': 'evaluate'}                  refs.evaluate on every ForwardRef (node.type, node.unwrapped)
+#                                                          of every sequence returned so far -- what a consumer of
+#                                                          the graph does with deferred nodes (failures ignored)
+#   {'op': 'resolve',  'how': 'static_order-of-ref'}       graph.static_order(<each such ForwardRef>)
+#   {'op': 'resolve',  'how': 'unmarshal' | 'marshal', 'root': desc, 'value': v}   typelib.unmarshal / marshal
+# A resolve step changes NOTHING in the environment the model is given: resolving a reference is no change of any
+# class.  The last two kinds ask static_order for annotations of their own, so they only occur in histories
+# whose classes never change (history_resolve_case), where a memoised answer and a fresh one coincide.
 # A class statement may name classes defined by a LATER step (forward references; every module starts with
 # `from __future__ import annotations`).  The environment "as it is" at a call (LiveHistory.snapshot):
 #   * a defined class all of whose member annotations name defined classes has its current members
@@ -593,6 +601,11 @@ class LiveHistory:
         self.form = {c["id"]: {f: "declared" for f, _ in c["fields"]} for c in case["classes"]}
         self.registry: dict = {}
         self.ambiguous: list = []
+        for d in case.get("named", []):
+            assert d[0] == "aliasstr" and d[1] == MOD_A, d      # the only named objects of a history case
+            s = named_source(case, d)
+            self.source[MOD_A] += s
+            exec(compile(s, f"<verif:{MOD_A}>", "exec", dont_inherit=True), self.mods[MOD_A].__dict__)
 
     # -- steps --------------------------------------------------------------------
     def define(self, ids):
@@ -676,7 +689,7 @@ class LiveHistory:
     def snapshot(self, root, tag=""):
         """The ordinary (single call) case describing the environment at this moment; refreshes the registry."""
         classes = [dict(cls_by_id(self.case, k), fields=self.members(k)) for k in self.defined]
-        snap = {"classes": classes, "named": [], "root": root, "tag": tag or self.case["tag"]}
+        snap = {"classes": classes, "named": list(self.case.get("named", [])), "root": root, "tag": tag or self.case["tag"]}
         self.registry = {}
         for d in universe(snap):
             try:
@@ -734,7 +747,8 @@ def _fresh_calls(rng, defined, optspell, asked, k, fn_iter=0.0):
     return out
 
 
-def history_late_case(n, mask, order, cut, prime_kind, rng: random.Random, flavours=None, prime_fn="static_order"):
+def history_late_case(n, mask, order, cut, prime_kind, rng: random.Random, flavours=None, prime_fn="static_order",
+                      resolve=False):
     """Late definition: the classes order[:cut] are defined, ONE annotation over the first of them is asked
     (the priming call: it walks through classes whose referenced names may not exist yet), the rest is
     defined, then annotations NOT asked before are asked over every class -- as root and inside containers."""
@@ -755,10 +769,16 @@ def history_late_case(n, mask, order, cut, prime_kind, rng: random.Random, flavo
         root = wrap(rng.choice(kinds), ("cls", j), optspell[j])
         asked.add(freeze(root))
         later.append({"op": "call", "fn": "static_order", "root": root})
+    if resolve:      # a consumer resolves what it can of the deferred nodes it was handed, at either moment
+        if rng.random() < 0.5:
+            steps.insert(2, {"op": "resolve", "how": "evaluate"})
+        k = rng.randrange(len(later) + 1)
+        later.insert(k, {"op": "resolve", "how": "evaluate"})
     steps += later
     steps.append({"op": "call", "fn": rng.choice(["static_order", "itertypes"]), "root": ("cls", order[0])})
-    return {"classes": classes, "named": [], "root": later[-1]["root"], "history": steps,
-            "tag": f"history-late:n{n}:m{mask}:o{''.join(map(str, order))}:c{cut}:{prime_kind}:{prime_fn}"}
+    last = [st for st in later if st["op"] == "call"][-1]["root"]
+    return {"classes": classes, "named": [], "root": last, "history": steps,
+            "tag": f"history-late:n{n}:m{mask}:o{''.join(map(str, order))}:c{cut}:{prime_kind}:{prime_fn}" + (":resolve" if resolve else "")}
 
 
 def history_random_case(rng: random.Random, n: int):
@@ -778,6 +798,8 @@ def history_random_case(rng: random.Random, n: int):
         steps.append({"op": "define", "ids": ids})
         defined += ids
         steps += _fresh_calls(rng, defined, optspell, asked, rng.choice([1, 1, 2]), fn_iter=0.2)
+        if rng.random() < 0.3:      # a consumer resolves what it can of the deferred nodes it was handed
+            steps.append({"op": "resolve", "how": "evaluate"})
         # a member registered on a class after its first use (sometimes naming a class defined later: text form)
         if rng.random() < 0.6:
             plain = [k for k in defined if classes[k]["flavour"] == "plainclass"]
@@ -840,4 +862,150 @@ def show_step(case, st) -> str:
         text = src(case, st["type"], MOD_A)
         return f"{cls_by_id(case, st['cls'])['qual']}.__annotations__[{st['field']!r}] = " + \
             (repr(text) if st["as"] == "text" else text)
+    if st["op"] == "resolve":
+        if st["how"] == "evaluate":
+            return "for every ForwardRef r in node.type / node.unwrapped of the sequences so far: refs.evaluate(r)"
+        if st["how"] == "static_order-of-ref":
+            return "for every ForwardRef r in node.type / node.unwrapped of the sequences so far: graph.static_order(r)"
+        if st["how"] == "unmarshal":
+            return f"typelib.unmarshal({src(case, st['root'], MOD_A)}, {st['value']!r})"
+        return f"typelib.marshal({st['value']!r}, t={src(case, st['root'], MOD_A)})"
     return f"graph.{st['fn']}({src(case, st['root'], MOD_A)})"
+
+
+# ----------------------------------------------------------------------------------
+# two-level container edges (round 4): the member of class i that leads to class j is OUTER[INNER[Cj]], e.g.
+# list[Optional[Cj]], dict[str, list[Cj]], tuple[Cj | None, ...].  The inner generic is an ARGUMENT node
+# (var=None): the same graph node wherever it occurs, whatever the field that holds its container is called.
+#   * inner[j] is (mostly) ONE container per target class, so that the classes referring to j share the argument node
+#   * field names are the owner's own (`g<i>_<j>`) or the target's (`f<j>`, shared by every referring class: then
+#     the outer container is the same NAMED node too), or differ only between the root's class and the others
+#   * the outer container varies per edge
+# ----------------------------------------------------------------------------------
+INNER_KINDS = ["opt", "list", "dict", "tuplevar", "pipe_none"]
+OUTER_KINDS = ["list", "dict", "tuplevar", "opt", "fixedtuple"]
+
+
+def wrap2(outer, inner, x, optspell):
+    a = wrap(inner, x, optspell)
+    if outer in ("opt", "pipe_none"):
+        # `Optional[Optional[X]]` flattens; an optional outer layer goes around a non-union inner one only
+        if a[0] == "union":
+            outer = "list"
+        else:
+            return ("union", "opt", [a, NONE]) if is_typing_form(a) or optspell == "opt" else ("union", "pipe", [a, NONE])
+    return wrap(outer, a)
+
+
+def deep_case(n, mask, rng: random.Random, root_cls, root_kind, naming=None):
+    optspell = [rng.choice(["opt", "pipe_none"]) for _ in range(n)]
+    inner = [rng.choice(INNER_KINDS) for _ in range(n)]
+    naming = naming or rng.choice(["own", "own", "target", "root-differs"])
+    classes = []
+    for i in range(n):
+        fl = rng.choice(["dataclass", "dataclass", "namedtuple", "typeddict", "plainclass"])
+        fields = []
+        for j in range(n):
+            if not (mask >> (i * n + j)) & 1:
+                continue
+            ik = inner[j] if rng.random() < 0.85 else rng.choice(INNER_KINDS + ["plain"])
+            ok = rng.choice(OUTER_KINDS)
+            if ik == "plain":
+                t = wrap(ok if ok != "fixedtuple" else "list", ("cls", j), optspell[j])
+            else:
+                t = wrap2(ok, ik, ("cls", j), optspell[j])
+            if naming == "own":
+                name = f"g{i}_{j}"
+            elif naming == "target":
+                name = f"f{j}"
+            else:
+                name = f"r{j}" if i == root_cls else f"f{j}"
+            fields.append((name, t))
+        if rng.random() < 0.25 or not fields:
+            fields.append(("s", INT))
+        classes.append({"id": i, "module": MOD_A, "qual": f"C{i}", "flavour": fl, "fields": fields})
+    root = wrap(root_kind, ("cls", root_cls), optspell[root_cls])
+    return {"classes": classes, "named": [], "root": root, "tag": f"deep:n{n}:m{mask}:r{root_cls}:{root_kind}:{naming}"}
+
+
+# ----------------------------------------------------------------------------------
+# resolve histories (round 4): nothing in the environment changes; between the calls a consumer RESOLVES deferred
+# nodes (string-alias bodies, forward-reference nodes).  String-valued aliases: recursive JSON-like ones, ones over
+# the case's classes, a chain alias -> alias; they occur as class members, as generic arguments and as roots.
+# ----------------------------------------------------------------------------------
+JSON_VALUES = [1, None, {"k": 1}, {"k": None}, {}, 0]      # no text, no lists: the union routines iterate those
+
+
+def alias_text(rng: random.Random, name, classes, others):
+    r = rng.random()
+    if r < 0.4 or not classes:
+        ms = rng.sample([f"dict[str, {name}]", f"list[{name}]", f"tuple[{name}, ...]", "int", "str", "float"], rng.randint(2, 4))
+        if not any(name in m for m in ms):
+            ms.insert(0, f"list[{name}]")
+        return " | ".join(ms + ["None"]), True
+    c = rng.choice(classes)["qual"]
+    if r < 0.55:
+        return c, False
+    if r < 0.8:
+        return rng.choice([f"list[{c}]", f"dict[str, {c}]", f"typing.Optional[{c}]", f"tuple[{c}, ...]"]), False
+    if others and r < 0.9:
+        return rng.choice([others[0], f"list[{others[0]}]"]), False
+    return f"list[{c}] | None", False
+
+
+def history_resolve_case(rng: random.Random, n: int):
+    classes = [{"id": i, "module": MOD_A, "qual": f"C{i}", "flavour": rng.choice(HIST_FLAVOURS), "fields": []} for i in range(n)]
+    optspell = [rng.choice(["opt", "pipe_none"]) for _ in range(n)]
+    named, jsonlike = [], {}
+    for k in range(rng.choice([1, 1, 2])):
+        text, js = alias_text(rng, f"J{k}", classes, [d[2] for d in named])
+        d = ("aliasstr", MOD_A, f"J{k}", text)
+        named.append(d)
+        jsonlike[d[2]] = js
+    for i in range(n):
+        for j in range(n):
+            if rng.random() < 0.3:
+                classes[i]["fields"].append((f"f{j}", wrap(rng.choice(EDGE_KINDS), ("cls", j), optspell[j])))
+        for d in named:
+            if rng.random() < 0.6:
+                # NewType / alias objects turn `X | None` into typing.Optional[X] themselves
+                classes[i]["fields"].append((f"j{d[2]}", wrap(rng.choice(["plain", "plain", "list", "dict", "opt", "tuplevar"]), d, "opt")))
+        if not classes[i]["fields"] or rng.random() < 0.3:
+            classes[i]["fields"].append(("s", rng.choice([INT, STR])))
+    pool = [wrap(k, d, "opt") for d in named for k in ["plain", "list", "dict", "opt", "tuplevar", "fixedtuple"]]
+    pool += [wrap(k, ("cls", i), optspell[i]) for i in range(n) for k in ROOT_KINDS]
+    rng.shuffle(pool)
+    alias_first = [r for r in pool if any(s[0] == "aliasstr" for s in subterms(r))]
+    steps = [{"op": "define", "ids": list(range(n))}]
+    asked: set = set()
+
+    def call(root, fn="static_order"):
+        if fn == "static_order":
+            asked.add(freeze(root))
+        steps.append({"op": "call", "fn": fn, "root": root})
+
+    def fresh(prefer_alias):
+        src_pool = (alias_first if prefer_alias and rng.random() < 0.8 else pool)
+        cand = [r for r in src_pool if freeze(r) not in asked] or pool
+        return rng.choice(cand)
+
+    for _ in range(rng.choice([1, 2])):
+        call(fresh(True), "itertypes" if rng.random() < 0.15 else "static_order")
+    for _ in range(rng.choice([1, 1, 2])):
+        how = rng.choice(["evaluate", "evaluate", "static_order-of-ref", "unmarshal", "marshal"])
+        if how in ("unmarshal", "marshal"):
+            js = [d for d in named if jsonlike[d[2]]]
+            if js:
+                d = rng.choice(js)
+                kind = rng.choice(["plain", "list", "dict"])
+                v = rng.choice(JSON_VALUES)
+                steps.append({"op": "resolve", "how": how, "root": wrap(kind, d),
+                              "value": v if kind == "plain" else [v] if kind == "list" else {"k": v}})
+            else:
+                steps.append({"op": "resolve", "how": "evaluate"})
+        else:
+            steps.append({"op": "resolve", "how": how})
+        for _ in range(rng.choice([1, 2, 3])):
+            call(fresh(True))
+    last = [st for st in steps if st["op"] == "call"][-1]["root"]
+    return {"classes": classes, "named": named, "root": last, "history": steps, "tag": f"history-resolve:n{n}:{rng.randrange(10 ** 6)}"}
